@@ -427,7 +427,7 @@ CODE_TEXT = {
     701: 'caller observed success after cancel without handler OK', 703: 'caller operation did not return when its context was cancelled',
     704: 'handler operation still pending after the cancel notice was delivered', 802: 'handler invoked twice for one RPC', 803: 'wrong handler invoked',
     901: 'panic', 1001: 'handler started for an RPC begun after shutdown', 1002: 'RPC begun after shutdown was not refused with Unavailable',
-    501: 'flow-controlled sender left parked although its whole window had been credited back (lost wake-up)', 902: 'live heap of the endpoint grew by more than 48 MiB under a hostile peer (MiB in a)',
+    501: 'flow-controlled sender left parked although its whole window had been credited back (lost wake-up)', 902: 'live heap grew by more than 200 MiB under a hostile peer announcing huge sizes (MiB in a)',
     1003: 'tunnel ended after graceful shutdown was initiated', 1004: 'Stop returned before every Serve call had returned',
     1005: 'GracefulStop did not return although the RPCs in flight had finished', 1103: 'settings frame present/absent contrary to advertisement',
     1201: 'RPC routed to a different tunnel than the round-robin model picks', 1202: 'routing failed / succeeded contrary to the registry model',
